@@ -1,4 +1,356 @@
-use crate::world::World;
-use crate::Cx;
+//! Family 4: JWS decoding in three serializations (+ detached payloads), headers, claims, verification.
+use crate::gen::{self, Kind};
+use crate::world::{sig_b64, sign_compact, SigMod, World, ISSUER_DID, SIGMODS};
+use crate::{Cx, In};
+use identity_core::convert::{FromJson, ToJson};
+use identity_ecdsa_verifier::EcDSAJwsVerifier;
+use identity_eddsa_verifier::EdDSAJwsVerifier;
+use identity_jose::jwk::Jwk;
+use identity_jose::jws::{CharSet, Decoder, JwsHeader, JwsValidationItem};
+use identity_jose::jwt::JwtClaims;
+use identity_jose::jwu;
+use serde_json::Value;
+use vh::b64::url_encode;
+use vh::keys::Key;
 use vh::Rng;
-pub fn run(_cx: &mut Cx, _w: &World, _rng: &mut Rng, _budget: u64) {}
+
+pub fn sweep_header(cx: &mut Cx, origin: &str, h: &JwsHeader) {
+  let i = In::C(origin, "JwsHeader");
+  cx.acc("JwsHeader.getters", i, || {
+    (
+      h.alg().map(|a| a.name().len()),
+      h.b64(),
+      h.custom().map(|c| c.len()),
+      h.kid().map(str::len),
+      h.typ().map(str::len),
+      h.cty().map(str::len),
+      h.crit().map(|c| c.len()),
+      h.nonce().map(str::len),
+      h.url().map(|u| u.as_str().len()),
+      h.jku().map(|u| u.as_str().len()),
+      h.x5u().map(|u| u.as_str().len()),
+      (h.x5c().map(|c| c.len()), h.x5t().map(str::len), h.x5t_s256().map(str::len), h.jwk().map(|k| k.thumbprint_sha256_b64().len())),
+    )
+  });
+  cx.acc("JwsHeader.has", i, || (h.has("alg"), h.has("b64"), h.has("kid"), h.has(""), h.has("zzz"), h.is_disjoint(h), h.is_disjoint(&JwsHeader::new())));
+  cx.acc("JwsHeader.to_json", i, || h.to_json().map(|j| JwsHeader::from_json(&j).is_ok()).is_ok());
+  cx.acc("JwsHeader.fmt_clone_eq", i, || (format!("{:?}", h).len(), h.clone() == *h));
+}
+
+/// Accessors on a decoded item, then `verify` with every verifier against a set of attacker keys.
+pub fn sweep_item(cx: &mut Cx, w: &World, origin: &str, mk: &dyn Fn() -> Option<JwsValidationItem<'static>>, rng: &mut Rng, deep: bool) {
+  let Some(item) = mk() else { return };
+  let i = In::C(origin, "JwsValidationItem");
+  cx.acc("JwsValidationItem.getters", i, || (item.nonce().map(str::len), item.kid().map(str::len), item.alg().map(|a| a.name().len()), item.claims().len(), item.signing_input().len(), item.decoded_signature().len()));
+  let ph = item.protected_header().cloned();
+  let uh = item.unprotected_header().cloned();
+  if let Some(h) = &ph {
+    sweep_header(cx, origin, h);
+  }
+  if let Some(h) = &uh {
+    sweep_header(cx, origin, h);
+  }
+  let claims = item.claims().to_vec();
+  cx.acc("JwtClaims.from_json_slice", i, || JwtClaims::<Value>::from_json_slice(&claims).map(|c| (c.iss().map(str::len), c.exp(), c.nbf(), c.iat(), c.aud().map(|a| a.len()), c.to_json().is_ok())).ok());
+  drop(item);
+  // keys: the right harness keys, the header-embedded jwk (attacker-chosen), a few hostile ones
+  let mut keys: Vec<(String, Jwk)> = vec![("ed".into(), w.ed.public_jwk(None)), ("p256".into(), w.p256.public_jwk(None)), ("k256".into(), w.k256.public_jwk(Some("ES256K")))];
+  if let Some(k) = ph.as_ref().and_then(|h| h.jwk()) {
+    keys.push(("header-jwk".into(), k.clone()));
+  }
+  let n_h = if deep { 8 } else { 2 };
+  for _ in 0..n_h {
+    let (name, j) = &w.hostile[rng.usize(w.hostile.len())];
+    if let Ok(k) = serde_json::from_str::<Jwk>(j) {
+      keys.push((name.clone(), k));
+    }
+  }
+  for (name, k) in &keys {
+    let arg = format!("key={}", name);
+    let i = In::C(origin, &arg);
+    if let Some(it) = mk() {
+      if let Some(Ok(d)) = cx.acc("JwsValidationItem.verify[EcDSA]", i, move || it.verify(&EcDSAJwsVerifier::default(), k)) {
+        cx.rep.inc("jws_verified");
+        cx.acc("DecodedJws.sweep", i, || (d.claims.len(), d.protected.alg().is_some(), d.unprotected.is_some(), format!("{:?}", d).len(), d.clone() == d));
+      }
+    }
+    if let Some(it) = mk() {
+      if let Some(Ok(d)) = cx.acc("JwsValidationItem.verify[EdDSA]", i, move || it.verify(&EdDSAJwsVerifier::default(), k)) {
+        cx.rep.inc("jws_verified");
+        cx.acc("DecodedJws.sweep", i, || (d.claims.len(), d.protected.alg().is_some(), d.unprotected.is_some(), format!("{:?}", d).len()));
+      }
+    }
+  }
+}
+
+/// `data` and `detached` are leaked per call site below (bounded: only for accepted tokens) so that
+/// items can be re-created with a 'static lifetime for the verify sweep.
+fn feed(cx: &mut Cx, w: &World, rng: &mut Rng, data: &[u8], detached: Option<&[u8]>, deep: bool) {
+  let dec = Decoder::new();
+  let i = In::B(data);
+  let origin = String::from_utf8_lossy(data).into_owned();
+  let det_s = detached.map(|d| String::from_utf8_lossy(d).into_owned());
+  let arg = format!("detached={:?}", det_s);
+  let io = In::C(&origin, &arg);
+  let ok = cx.ent("Decoder::decode_compact_serialization", if detached.is_some() { io } else { i }, || dec.decode_compact_serialization(data, detached).map(|_| ())).is_some();
+  if ok {
+    let d: &'static [u8] = Box::leak(data.to_vec().into_boxed_slice());
+    let p: Option<&'static [u8]> = detached.map(|x| &*Box::leak(x.to_vec().into_boxed_slice()));
+    sweep_item(cx, w, &origin, &|| Decoder::new().decode_compact_serialization(d, p).ok(), rng, deep);
+  }
+  let ok = cx.ent("Decoder::decode_flattened_serialization", if detached.is_some() { io } else { i }, || dec.decode_flattened_serialization(data, detached).map(|_| ())).is_some();
+  if ok {
+    let d: &'static [u8] = Box::leak(data.to_vec().into_boxed_slice());
+    let p: Option<&'static [u8]> = detached.map(|x| &*Box::leak(x.to_vec().into_boxed_slice()));
+    sweep_item(cx, w, &origin, &|| Decoder::new().decode_flattened_serialization(d, p).ok(), rng, deep);
+  }
+  let n = cx.ent("Decoder::decode_general_serialization", if detached.is_some() { io } else { i }, || {
+    dec.decode_general_serialization(data, detached).map(|it| it.map(|r| r.is_ok()).collect::<Vec<bool>>())
+  });
+  if let Some(oks) = n {
+    let d: &'static [u8] = Box::leak(data.to_vec().into_boxed_slice());
+    let p: Option<&'static [u8]> = detached.map(|x| &*Box::leak(x.to_vec().into_boxed_slice()));
+    for (k, ok) in oks.iter().enumerate().take(4) {
+      if *ok {
+        sweep_item(cx, w, &origin, &|| Decoder::new().decode_general_serialization(d, p).ok().and_then(|mut it| it.nth(k)).and_then(|r| r.ok()), rng, deep);
+      }
+    }
+  }
+}
+
+fn feed_header(cx: &mut Cx, j: &str) {
+  if let Some(h) = cx.ent("JwsHeader::from_json", In::S(j), || JwsHeader::from_json(j)) {
+    sweep_header(cx, j, &h);
+  }
+  cx.ent("JwtClaims::from_json", In::S(j), || JwtClaims::<Value>::from_json(j).map(|c| c.to_json().is_ok()));
+}
+
+fn feed_b64(cx: &mut Cx, s: &str) {
+  cx.ent("jwu::decode_b64", In::S(s), || jwu::decode_b64(s));
+  cx.ent("jwu::decode_b64_json", In::S(s), || jwu::decode_b64_json::<Value>(s));
+  cx.ent("jwu::parse_utf8", In::S(s), || jwu::parse_utf8(s.as_bytes()).map(|x| x.len()));
+  cx.ent("CharSet::validate", In::S(s), || CharSet::Default.validate(s.as_bytes()).map(|x| x.len()));
+  cx.ent("CharSet::validate", In::S(s), || CharSet::UrlSafe.validate(s.as_bytes()).map(|x| x.len()));
+}
+
+pub const HEADERS: &[&str] = &[
+  r#"{"alg":"EdDSA"}"#, r#"{"alg":"ES256"}"#, r#"{"alg":"ES256K"}"#, r#"{"alg":"none"}"#, r#"{"alg":"HS256"}"#, r#"{"alg":"ES384"}"#, r#"{"alg":"XX"}"#, r#"{"alg":1}"#, r#"{}"#,
+  r#"[]"#, r#"null"#, r#"1"#, r#""#, r#"{"alg":"EdDSA","alg":"ES256"}"#, r#"{"alg":"EdDSA","b64":false,"crit":["b64"]}"#, r#"{"alg":"EdDSA","b64":false}"#,
+  r#"{"alg":"EdDSA","b64":true,"crit":["b64"]}"#, r#"{"alg":"EdDSA","crit":[]}"#, r#"{"alg":"EdDSA","crit":["alg"]}"#, r#"{"alg":"EdDSA","crit":["zzz"]}"#,
+  r#"{"alg":"EdDSA","crit":["b64","b64"]}"#, r#"{"alg":"EdDSA","crit":"b64"}"#, r#"{"alg":"EdDSA","b64":"false","crit":["b64"]}"#, r#"{"alg":"EdDSA","nonce":"n"}"#,
+  r#"{"alg":"EdDSA","kid":"did:example:123#k"}"#, r#"{"alg":"EdDSA","kid":""}"#, r#"{"alg":"EdDSA","kid":1}"#, r#"{"alg":"EdDSA","typ":"JWT","cty":"x"}"#,
+  r#"{"alg":"EdDSA","jku":"::","x5u":"::"}"#, r#"{"alg":"EdDSA","url":"https://example.com"}"#, r#"{"alg":"EdDSA","x5c":[1]}"#, r#"{"alg":"EdDSA","custom":{"a":[1,2,{"b":null}]}}"#,
+  r#"{"alg":"ES256","jwk":{"kty":"EC","crv":"P-256","x":"AA","y":"AA"}}"#, r#"{"alg":"ES256K","jwk":{"kty":"EC","crv":"secp256k1","x":"","y":""}}"#,
+  r#"{"alg":"EdDSA","jwk":{"kty":"OKP","crv":"Ed25519","x":"AA"}}"#, r#"{"alg":"EdDSA","jwk":{}}"#, r#"{"alg":"EdDSA","jwk":null}"#,
+];
+
+fn flat(protected: Option<&str>, header: Option<&str>, payload: Option<&str>, sig: &str, extra: &str) -> String {
+  let mut parts = Vec::new();
+  if let Some(p) = payload {
+    parts.push(format!(r#""payload":{}"#, serde_json::to_string(p).unwrap_or_default()));
+  }
+  if let Some(p) = protected {
+    parts.push(format!(r#""protected":"{}""#, url_encode(p.as_bytes())));
+  }
+  if let Some(h) = header {
+    parts.push(format!(r#""header":{}"#, h));
+  }
+  parts.push(format!(r#""signature":"{}""#, sig));
+  if !extra.is_empty() {
+    parts.push(extra.to_string());
+  }
+  format!("{{{}}}", parts.join(","))
+}
+
+fn key_for<'a>(w: &'a World, header: &str) -> &'a Key {
+  if header.contains("ES256K") {
+    &w.k256
+  } else if header.contains("ES256") {
+    &w.p256
+  } else {
+    &w.ed
+  }
+}
+
+pub fn run(cx: &mut Cx, w: &World, rng: &mut Rng, budget: u64) {
+  cx.set("jws", "directed");
+  let payloads: [&[u8]; 6] = [b"{\"iss\":\"joe\",\"exp\":1300819380}", b"", b"$.02", b"\xff\xfe", b"not json", b"{\"a\":\"\\\"\"}"];
+  let mut k = 0u64;
+  // compact tokens: every header x signature modification x payload
+  for h in HEADERS {
+    for (pi, p) in payloads.iter().enumerate() {
+      for (si, m) in SIGMODS.iter().enumerate() {
+        if pi > 0 && si > 2 {
+          continue;
+        }
+        k += 1;
+        if !cx.args.mine(k) {
+          continue;
+        }
+        let tok = sign_compact(key_for(w, h), h, p, *m);
+        feed(cx, w, rng, tok.as_bytes(), None, si == 0);
+        if h.contains("\"b64\":false") {
+          // unencoded payload, attached and detached
+          let hp = url_encode(h.as_bytes());
+          let mut si_bytes = format!("{}.", hp).into_bytes();
+          si_bytes.extend_from_slice(p);
+          let sig = sig_b64(key_for(w, h), &si_bytes, *m);
+          let mut attached = si_bytes.clone();
+          attached.extend_from_slice(format!(".{}", sig).as_bytes());
+          feed(cx, w, rng, &attached, None, false);
+          let det = format!("{}..{}", hp, sig);
+          feed(cx, w, rng, det.as_bytes(), Some(p), false);
+        }
+      }
+    }
+  }
+  // structural defects of the compact form
+  let good = sign_compact(&w.ed, r#"{"alg":"EdDSA"}"#, b"{}", SigMod::Good);
+  let parts: Vec<&str> = good.split('.').collect();
+  let structural: Vec<String> = vec![
+    String::new(), ".".into(), "..".into(), "...".into(), "....".into(), format!("{}.{}", parts[0], parts[1]), format!("{}..{}", parts[0], parts[2]),
+    format!(".{}.{}", parts[1], parts[2]), format!("{}.{}.", parts[0], parts[1]), format!("{}.{}.{}.", parts[0], parts[1], parts[2]), format!("{}.{}.{}.x", parts[0], parts[1], parts[2]),
+    format!("{}=.{}.{}", parts[0], parts[1], parts[2]), format!("{}.{}=.{}", parts[0], parts[1], parts[2]), format!("{}.{}.{}=", parts[0], parts[1], parts[2]),
+    format!(" {}", good), format!("{}\n", good), format!("{}.{}.{}", parts[0], parts[1], "A"), format!("{}.{}.{}", "A", parts[1], parts[2]), format!("{}.{}.{}", parts[0], "A", parts[2]),
+    format!("{}.{}.{}", parts[0], "é", parts[2]), format!("{}.{}.{}", url_encode(gen::deep_json(100, 1).as_bytes()), parts[1], parts[2]),
+    format!("{}.{}.{}", url_encode(gen::deep_json(127, 0).as_bytes()), parts[1], parts[2]), format!("{}.{}.{}", parts[0], url_encode(&vec![b'['; 60000]), parts[2]),
+    format!("{}.{}.{}", parts[0], parts[1], "A".repeat(60000)),
+  ];
+  for s in &structural {
+    k += 1;
+    if cx.args.mine(k) {
+      feed(cx, w, rng, s.as_bytes(), None, false);
+      feed(cx, w, rng, s.as_bytes(), Some(b"{}"), false);
+      feed(cx, w, rng, s.as_bytes(), Some(b""), false);
+    }
+  }
+  // flattened / general JSON forms
+  let pl = url_encode(b"{\"iss\":\"joe\"}");
+  let mut json_forms: Vec<(String, Option<Vec<u8>>)> = Vec::new();
+  for h in HEADERS.iter().take(20) {
+    let key = key_for(w, h);
+    let si = format!("{}.{}", url_encode(h.as_bytes()), pl);
+    for m in [SigMod::Good, SigMod::Flip, SigMod::Trunc(63), SigMod::Empty, SigMod::NotB64] {
+      let sig = sig_b64(key, si.as_bytes(), m);
+      json_forms.push((flat(Some(h), None, Some(&pl), &sig, ""), None));
+      json_forms.push((flat(Some(h), Some(r#"{"kid":"k1"}"#), Some(&pl), &sig, ""), None));
+      json_forms.push((flat(Some(h), Some(r#"{"alg":"EdDSA"}"#), Some(&pl), &sig, ""), None));
+      json_forms.push((flat(None, Some(h), Some(&pl), &sig, ""), None));
+      json_forms.push((flat(Some(h), None, None, &sig, ""), Some(pl.clone().into_bytes())));
+      json_forms.push((flat(Some(h), None, Some(&pl), &sig, r#""zzz":1"#), None));
+      json_forms.push((flat(Some(h), None, Some(""), &sig, ""), Some(pl.clone().into_bytes())));
+      let s1 = flat(Some(h), None, None, &sig, "");
+      let s2 = flat(Some(h), Some(r#"{"kid":"2"}"#), None, &sig, "");
+      json_forms.push((format!(r#"{{"payload":"{}","signatures":[{},{}]}}"#, pl, s1, s2), None));
+      json_forms.push((format!(r#"{{"signatures":[{}]}}"#, s1), Some(pl.clone().into_bytes())));
+      json_forms.push((format!(r#"{{"payload":"{}","signatures":[]}}"#, pl), None));
+      json_forms.push((format!(r#"{{"payload":"{}","signatures":[{},{}],"x":1}}"#, pl, s1, s2), None));
+    }
+  }
+  json_forms.push((r#"{"payload":"a\"b","protected":"e30","signature":""}"#.into(), None));
+  json_forms.push((r#"{"payload":"A","signature":"AA","header":{"alg":"EdDSA"}}"#.into(), None));
+  json_forms.push((r#"{"signatures":{}}"#.into(), None));
+  json_forms.push((format!(r#"{{"payload":"{}","signatures":[{}]}}"#, pl, vec![r#"{"signature":"AA","header":{"alg":"EdDSA"}}"#; 2000].join(",")), None));
+  for (j, det) in &json_forms {
+    k += 1;
+    if cx.args.mine(k) {
+      feed(cx, w, rng, j.as_bytes(), det.as_deref(), false);
+    }
+  }
+  for s in w.seeds.jws.iter() {
+    k += 1;
+    if cx.args.mine(k) {
+      feed(cx, w, rng, s.as_bytes(), None, true);
+      feed(cx, w, rng, s.as_bytes(), Some(b"$.02"), false);
+    }
+  }
+  for h in HEADERS {
+    k += 1;
+    if cx.args.mine(k) {
+      feed_header(cx, h);
+      feed_b64(cx, &url_encode(h.as_bytes()));
+      feed_b64(cx, h);
+    }
+  }
+
+  // ---- grammar-aware random tokens
+  cx.gen("grammar");
+  let jws_json = w.seeds.of(Kind::JwsJson);
+  for _ in 0..budget / 2 {
+    let base = *rng.pick(HEADERS);
+    let hv = serde_json::from_str::<Value>(base).ok();
+    let h = if rng.chance(1, 2) { base.to_string() } else { gen::mutate_json_text(rng, base, hv.as_ref(), "") };
+    let payload: Vec<u8> = match rng.below(5) {
+      0 => b"{}".to_vec(),
+      1 => w.credential_claims(None).to_string().into_bytes(),
+      2 => {
+        let n = rng.usize(64);
+        rng.bytes(n)
+      }
+      3 => gen::any_token(rng).as_bytes().to_vec(),
+      _ => format!(r#"{{"iss":"{}","exp":{},"nbf":{},"aud":{}}}"#, ISSUER_DID, gen::pick_s(rng, gen::NUM_TOKENS), gen::pick_s(rng, gen::NUM_TOKENS), rng.pick(&["\"a\"", "[\"a\"]", "1", "[]", "null"])).into_bytes(),
+    };
+    let m = *rng.pick(SIGMODS);
+    let key = *rng.pick(&[&w.ed, &w.p256, &w.k256]);
+    let tok = sign_compact(if rng.chance(3, 4) { key_for(w, &h) } else { key }, &h, &payload, m);
+    match rng.below(4) {
+      0 | 1 => feed(cx, w, rng, tok.as_bytes(), None, false),
+      2 => {
+        let p: Vec<&str> = tok.split('.').collect();
+        let j = flat(None, None, Some(p[1]), p[2], &format!(r#""protected":"{}""#, p[0]));
+        let j = if rng.bool() { j } else { format!(r#"{{"payload":"{}","signatures":[{{"protected":"{}","signature":"{}"}}]}}"#, p[1], p[0], p[2]) };
+        feed(cx, w, rng, j.as_bytes(), None, false);
+      }
+      _ => {
+        let p: Vec<&str> = tok.split('.').collect();
+        let det = format!("{}..{}", p[0], p[2]);
+        feed(cx, w, rng, det.as_bytes(), Some(p[1].as_bytes()), false);
+      }
+    }
+    if rng.chance(1, 8) {
+      feed_header(cx, &h);
+    }
+  }
+
+  // ---- mutation
+  cx.gen("mutation");
+  for _ in 0..budget / 2 {
+    match rng.below(4) {
+      0 => {
+        let seed = if !w.seeds.jws.is_empty() && rng.bool() { w.seeds.jws[rng.usize(w.seeds.jws.len())].clone() } else { good.clone() };
+        let m = gen::mutate_bytes(rng, seed.as_bytes(), good.as_bytes());
+        let det = if rng.chance(1, 4) { Some(&b"{}"[..]) } else { None };
+        feed(cx, w, rng, &m, det, false);
+      }
+      1 => {
+        // mutate inside one segment, re-encode
+        let p: Vec<&str> = good.split('.').collect();
+        let which = rng.usize(3);
+        let raw = vh::b64::url_decode(p[which]).unwrap_or_default();
+        let m = gen::mutate_bytes(rng, &raw, b"{\"alg\":\"ES256\",\"b64\":false,\"crit\":[\"b64\"]}");
+        let mut q: Vec<String> = p.iter().map(|s| s.to_string()).collect();
+        q[which] = url_encode(&m);
+        feed(cx, w, rng, q.join(".").as_bytes(), None, false);
+      }
+      2 => {
+        let (_, text, val) = w.seeds.pick(rng, &jws_json);
+        let other = gen::any_token(rng);
+        let j = gen::mutate_json_text(rng, text, Some(val), other);
+        let det = if rng.chance(1, 4) { Some(&b"e30"[..]) } else { None };
+        feed(cx, w, rng, j.as_bytes(), det, false);
+      }
+      _ => {
+        let (j, det) = &json_forms[rng.usize(json_forms.len())];
+        let v = serde_json::from_str::<Value>(j).ok();
+        let other = gen::any_token(rng);
+        let m = gen::mutate_json_text(rng, j, v.as_ref(), other);
+        feed(cx, w, rng, m.as_bytes(), det.as_deref(), false);
+      }
+    }
+    if rng.chance(1, 10) {
+      let t = gen::any_token(rng);
+      let s = gen::mutate_str(rng, &good, t);
+      feed_b64(cx, &s);
+    }
+  }
+}
